@@ -27,6 +27,10 @@ static std::string judge(const Case &cs, const Out &o) {
         if ((cs.ops & 1) && o.rr[r] != "ok") return "remote_rows on rank " + std::to_string(r) + ": " + o.rr[r];
         if (o.grows[r] != cs.m || o.gcols[r] != cs.n || o.gnnz[r] != cs.G.nnz()) return "global sizes wrong on rank " + std::to_string(r);
     }
+    if (cs.ops & 16) {
+        if (!mk::same(o.K, cs.G, why)) return "source kept by move_to_backend(keep_src): " + why;
+        if (!mk::same(o.T2, T, why)) return "transpose of the kept source: " + why;
+    }
     for (int i = 0; i < cs.m && (cs.ops & 16); ++i) {
         double s = 0; for (int j = 0; j < cs.n; ++j) if (cs.G.st(i, j)) s += cs.G(i, j) * (1 + (j * 3) % 5);
         double y = 2 * s - (2 - (i % 3)), r = (7 + i) - s;
